@@ -78,11 +78,15 @@ CHECKS = {
              essential=["norm:equal-under-respelling", "norm:token-deleted", "norm:token-substituted"]),
     ]),
     "C13": dict(level="exploration", exhaustive=True,
-                exhaustive_scope="every version triple in major 0..4 x minor 0..25 x patch 0..4 in both directory layouts, the 8-entry presence matrix, 20 outlier triples x 2 layouts, both 1.18.0 variants",
+                exhaustive_scope="every version triple in major 0..4 x minor 0..25 x patch 0..4 in both directory layouts, the 8-entry presence matrix, 20 outlier triples x 2 layouts, both 1.18.0 variants; the in-place walk (one directory, version rewritten and reloaded several times in one process) is sampled",
                 parts=[
         dict(prop="C13", harness="schema_pbt", quick=dict(count="enum", workers=8), thorough=dict(count="enum", workers=16),
              essential=["supported-triple", "supported-triple-in-other-layout", "unsupported-neighbour", "unsupported-triple", "outlier",
                         "presence-matrix", "variant-marker", "3.0.0", "stray-entries"]),
+        # sampled: one directory, stored version rewritten in place 2..6 times, loaded after each rewrite in the same process
+        dict(prop="C13.walk", harness="schema_pbt", quick=dict(count=1600, workers=8), thorough=dict(count=80000, workers=16),
+             essential=["supported-triple", "unsupported-neighbour", "unsupported-triple", "walk:loaded-then-other-supported",
+                        "walk:loaded-then-unsupported", "walk:rejected-then-loaded", "walk:1.18.0-base"]),
     ]),
     "C17": dict(level="exploration", parts=[
         dict(prop="C17", harness="schema_pbt", quick=dict(count=3200, workers=8), thorough=dict(count=120000, workers=16),
@@ -269,7 +273,11 @@ RULES = {
            "Information version columns (both files for 1.x). Oracle = a literal decision table of the 18 supported triples: supported triple "
            "in its own layout loads as exactly that schema (right 1.18.0 variant); any other triple -> unsupported_database; no database or "
            "both layouts -> database_not_found; database_exists() consistent. Tolerances: (3,0,0) may load as 3.0.0 or be rejected; a supported "
-           "triple in the other layout may load as exactly that schema or be rejected. Non-trivial = triples within distance 1 of a supported one.",
+           "triple in the other layout may load as exactly that schema or be rejected. Non-trivial = triples within distance 1 of a supported one. "
+           "Sampled part C13.walk: ONE library directory (any supported schema of either layout) whose stored triple is rewritten in place 2..6 times "
+           "(creation version, another supported version of the layout, a neighbour, an outlier, a box value; same file, same size, normally within one "
+           "second) and loaded after every rewrite in the same process, each load judged by the same decision table - what an earlier load of the "
+           "directory found must not matter. Non-trivial there = a load that follows a successful load of a different triple.",
     "C17": "Case = schema x file (m.db / p.db / Database2/m.db) x one of 20 mutation kinds (drop/rename/add table, view; add/drop/rename "
            "column; change a column's declared type, add NOT NULL, add DEFAULT, drop DEFAULT, change DEFAULT, drop NOT NULL, drop a column's PRIMARY "
            "KEY (the last four choose among the tables/columns that declare one); drop/add index, flip an index's uniqueness; reorder two columns) "
